@@ -117,6 +117,8 @@ class Reductions(Contract):
                             yield dict(fn=fn, fmt=list(fm), shape=list(shape), axis=axis, route=route)
                         if fm[2] <= 0 and axis is None and len(shape) == 1:
                             yield dict(fn=fn, fmt=list(fm), shape=list(shape), axis=axis, route='np', vint=True)      # integer-typed array (vdtype int)
+        for fm in [m for m in fms if m[2] >= 2][:2]:      # limits -0.75 / 1.5 representable in the operand's format
+            yield dict(fn='clip', fmt=list(fm), shape=[2], axis=None, route='np', clip_out=True)
         # dot products
         for fx, fy in [((True, 4, 2), (False, 3, 1)), ((False, 3, 0), (False, 3, 3)), ((True, 6, 3), (True, 6, 6))]:
             for shx, shy in [((2,), (2,)), ((3,), (3,)), ((2, 2), (2, 2)), ((2, 2), (2,)), ((2, 3), (3, 2))] if tier == 'thorough' else [((2,), (2,)), ((3,), (3,)), ((2, 2), (2, 2))]:
@@ -152,7 +154,12 @@ class Reductions(Contract):
             z = np.transpose(x) if route == 'np' else x.transpose()
         elif fn == 'clip':
             lo, hi = -0.75, 1.5
-            z = np.clip(x, lo, hi) if route == 'np' else x.clip(lo, hi)
+            if cfg.get('clip_out'):
+                # out= object with another fraction length: the limits are still values, not codes of the output format
+                zo = make_fxp(P, True, 12, f + 2, codes=[0] * nelem(cfg['shape']), shape=tuple(cfg['shape']), vdtype=float)
+                z = np.clip(x, lo, hi, out=zo)
+            else:
+                z = np.clip(x, lo, hi) if route == 'np' else x.clip(lo, hi)
         elif fn == 'trace':
             off = cfg.get('offset', 0)
             z = np.trace(x, offset=off) if route == 'np' else x.trace(offset=off)
@@ -280,7 +287,14 @@ class MatmulBounded(Contract):
                 x = P.Fxp(np.array(cx).reshape(shx), sx, nx, fx, raw=True); y = P.Fxp(np.array(cy).reshape(shy), sy, ny, fy, raw=True)
                 ex = np.array([vals(c, fx) for c in cx], dtype=object).reshape(shx).dot(np.array([vals(c, fy) for c in cy], dtype=object).reshape(shy))
                 exl = [Fraction(v) for v in np.asarray(ex, dtype=object).ravel()] if hasattr(ex, 'ravel') else [Fraction(ex)]
-                for name, z in (('matmul', np.matmul(x, y)), ('np_dot', np.dot(x, y)), ('method_dot', x.dot(y))):
+                routes = [('matmul', np.matmul(x, y)), ('np_dot', np.dot(x, y)), ('method_dot', x.dot(y))]
+                if shx == (2, 2) and shy == (2, 2):
+                    # operands that went through a transposition / an in-place sort first (cached attributes are stale then):
+                    # (A^T)^T B, and sorted rows
+                    xt = P.Fxp(np.array(cx).reshape(shx).T.copy(), sx, nx, fx, raw=True).T
+                    routes.append(('matmul', np.matmul(xt, y)))
+                    routes.append(('np_dot', np.dot(xt, y)))
+                for name, z in routes:
                     cases += 1
                     got = [Fraction(c) * pow2(-z.n_frac) for c in (z.val.ravel().tolist() if z.val.ndim else [z.val.item()])]
                     ok = got == exl and isinstance(z, P.Fxp) and not z.status['overflow'] and not z.status['underflow']
